@@ -647,6 +647,34 @@ func (c *EvalCtx) evalCall(n ECall, want *Sort) (Val, error) {
 		}
 		name, as := x.elemArr(sl.Elem(), 0, es[0])
 		return scalar(as.Val, "(select "+x.heapGet(c.st, name, as)+" "+v.L[0]+")"), nil
+	case "fieldarr":
+		// fieldarr(p.f): the heap map holding field f of p's struct type (Array Ref T)
+		sel, ok := n.Args[0].(ESel)
+		if !ok {
+			return Val{}, c.errf("fieldarr(p.f)")
+		}
+		pv, err := c.eval(sel.X, nil)
+		if err != nil {
+			return Val{}, err
+		}
+		pt, ok := pv.GT.Underlying().(*types.Pointer)
+		if !ok {
+			return Val{}, c.errf("fieldarr through non-pointer")
+		}
+		su, ok := pt.Elem().Underlying().(*types.Struct)
+		if !ok {
+			return Val{}, c.errf("fieldarr of non-struct")
+		}
+		idx, _ := findField(su, sel.F)
+		if idx < 0 {
+			return Val{}, c.errf("no field %s", sel.F)
+		}
+		ls := x.layout(su.Field(idx).Type())
+		if len(ls) != 1 {
+			return Val{}, c.errf("fieldarr of composite field")
+		}
+		as := refArr(ls[0])
+		return scalar(as, x.heapGet(c.st, x.fieldArrName(pt.Elem(), idx, 0), as)), nil
 	case "base":
 		v, err := arg(0, nil)
 		if err != nil {
